@@ -154,7 +154,15 @@ class Builder(NullCell):
         i = self.available_bytes
         if len(value) <= i:
             return self.store_bytes(value)
-        return self.store_bytes(value[:i]).store_ref(Builder().store_snake_bytes(value[i:]).end_cell())
+        # the continuation cells are built last to first in a loop: a chain may be ~1000 cells long
+        size = Builder().available_bytes
+        tail = None
+        for start in reversed(range(i, len(value), size)):
+            cell = Builder().store_bytes(value[start:start + size])
+            if tail is not None:
+                cell.store_ref(tail)
+            tail = cell.end_cell()
+        return self.store_bytes(value[:i]).store_ref(tail)
 
     def store_snake_string(self, value: str, need_prefix: bool = False):
         value = value.encode()
